@@ -120,6 +120,129 @@ def redundant_bypass(index, base, f, call, COMPUTE="_compute"):
     return "undecided", f"no constructor check of {S.name} was recognised that makes every member of {coll} require the transform's own keys"
 
 
+def _hook_driven_checks(index, ctx, td, ini, c, sup, T, PAIR, DICT, overridden, covering):
+    ALLPAIRS = next((n for n, f in td.methods.items() if n not in overridden and n != "__init__" and any(
+        isinstance(l, ast.For) and any(isinstance(x, ast.Call) and isinstance(x.func, ast.Attribute) and x.func.attr == PAIR for x in ast.walk(l)) for l in ast.walk(f.node))), None)
+    cd = covering(DICT)
+    cp = covering(ALLPAIRS) if ALLPAIRS is not None else []
+    # the per-pair loop may be written in __init__ itself: `for key, value in <mapping>.items(): self._check_key_value_pair(key, value)` without early exit
+    for n_ in c.nodes:
+        a_ = n_.ast
+        if isinstance(a_, ast.For) and "items" in norm_text(a_.iter) and not any(isinstance(x, (ast.Break, ast.Return, ast.Continue)) for x in ast.walk(a_)) \
+                and any(isinstance(x, ast.Call) and isinstance(x.func, ast.Attribute) and x.func.attr == PAIR for x in ast.walk(a_)):
+            cp = list(cp) + [n_]
+    ok = bool(sup) and all(any(c.dominates(x, s) for x in cd) and any(c.dominates(x, s) for x in cp) for s in sup)
+    ctx.require(ok, "R6", "TensorDict.__init__: checks dominate the store", f"{DICT} and the per-pair check ({ALLPAIRS or PAIR}) run on every path before super().__init__",
+                f"a path reaches super().__init__(...) without running {DICT} / the check of every pair: a dictionary can exist with values whose shapes contradict its type", ini[1].loc())
+    ap = td.lookup(ALLPAIRS) if ALLPAIRS is not None else None
+    if ap is not None:
+        loops = [n for n in ast.walk(ap[1].node) if isinstance(n, ast.For)]
+        good = len(loops) == 1 and "items" in norm_text(loops[0].iter) and not any(isinstance(x, (ast.Break, ast.Return, ast.Continue)) for x in ast.walk(loops[0])) and \
+            any(isinstance(x, ast.Call) and isinstance(x.func, ast.Attribute) and x.func.attr == PAIR for x in ast.walk(loops[0]))
+        ctx.require(good, "R6", "TensorDict: the all-pairs driver visits every item", "loop over items() without early exit", "the per-pair check does not visit every (key, value) pair", ap[1].loc())
+    for hf in [f for f in td.module.functions.values() if any(isinstance(x, ast.Raise) and "ValueError" in norm_text(x) for x in ast.walk(f.node))]:
+        for comp in [n for n in ast.walk(hf.node) if isinstance(n, (ast.ListComp, ast.SetComp, ast.GeneratorExp, ast.DictComp))]:
+            filt = [g for g in comp.generators if g.ifs]
+            ctx.require(not filt, "R6", f"{hf.short}: `{norm_text(comp)[:70]}` considers every value", "no filter in the comprehension",
+                        f"the check skips some values (`if {norm_text(filt[0].ifs[0]) if filt else ''}`): a dictionary with such values escapes the shape rule of its type", hf.loc(comp))
+        for loop in [n for n in ast.walk(hf.node) if isinstance(n, ast.For)]:
+            if any(isinstance(x, ast.Continue) for x in ast.walk(loop)):
+                ctx.violated("R6", f"{hf.short}: loop skips some values", "`continue` inside a shape check", hf.loc(loop))
+    typed = {"Gradients": [PAIR], "Jacobians": [DICT, PAIR], "GradientVectors": [PAIR], "JacobianMatrices": [DICT, PAIR]}
+    for cname, hooks in typed.items():
+        cls = index.find_class(f"{T}.tensor_dict.{cname}")
+        if cls is None:
+            raise AnalysisError(f"anchor vanished: {cname}")
+        for h in hooks:
+            f = cls.methods.get(h)
+            if f is None and h in cls.class_attrs:
+                # `_check_dict = staticmethod(_some_module_function)` / `_check_dict = _some_module_function`
+                e_ = cls.class_attrs[h]
+                if isinstance(e_, ast.Call) and norm_text(e_.func) in ("staticmethod", "classmethod") and e_.args:
+                    e_ = e_.args[0]
+                if isinstance(e_, ast.Name) and e_.id in cls.module.functions:
+                    f = cls.module.functions[e_.id]
+            okh = False
+            if f is not None:
+                # the hook (or the helpers it calls in the same module) raises ValueError under a comparison
+                helpers = [f] + [cls.module.functions[n.func.id] for n in ast.walk(f.node) if isinstance(n, ast.Call) and isinstance(n.func, ast.Name) and n.func.id in cls.module.functions]
+                okh = len(helpers) > 1 or any(isinstance(x, ast.Raise) for x in ast.walk(f.node))
+                for hf in helpers[1:] or helpers:
+                    hc = cfg_of(hf.node)
+                    raises = [n for n in hc.stmt_nodes() if isinstance(n.ast, ast.Raise) and "ValueError" in norm_text(n.ast)]
+                    guarded = all(any(t.kind == "test" and any(isinstance(y, ast.Compare) for y in ast.walk(t.ast.test)) for t, _ in hc.guards_of(n)) for n in raises)
+                    okh = okh and bool(raises) and guarded
+            ctx.require(okh, "R6", f"{cname}.{h}", "overrides the hook with ValueError guards", f"{cname} does not override `{h}` with a shape guard raising ValueError", cls.loc())
+        if "__init__" in cls.methods:
+            ctx.violated("R6", f"{cname}.__init__", f"{cname} overrides __init__ (the checks of TensorDict.__init__ may be skipped)", cls.loc())
+
+
+def _shape_check_ok(cls, e_):
+    """The table entry `e_` names a function of the module (possibly through functools.partial) every ValueError of which sits under a comparison."""
+    if isinstance(e_, ast.Call) and norm_text(e_.func).split(".")[-1] == "partial" and e_.args:
+        e_ = e_.args[0]
+    if isinstance(e_, ast.Call) and norm_text(e_.func) in ("staticmethod",) and e_.args:
+        e_ = e_.args[0]
+    if not (isinstance(e_, ast.Name) and e_.id in cls.module.functions):
+        return False
+    hf = cls.module.functions[e_.id]
+    hc = cfg_of(hf.node)
+    raises = [n for n in hc.stmt_nodes() if isinstance(n.ast, ast.Raise) and "ValueError" in norm_text(n.ast)]
+    return bool(raises) and all(any(t.kind == "test" and any(isinstance(y, ast.Compare) for y in ast.walk(t.ast.test)) for t, _ in hc.guards_of(n)) for n in raises)
+
+
+def _table_driven_checks(index, ctx, td, ini_f, c, sup, T) -> bool:
+    """R6 when the checks of the typed dictionaries are declared as TABLES: class attributes holding tuples of check functions, which
+    TensorDict.__init__ walks (the dictionary-level ones on the mapping, the per-pair ones on every item) before storing. Returns False
+    when the class is not written that way."""
+    tables = {n: e for n, e in td.class_attrs.items() if isinstance(e, (ast.Tuple, ast.List))}
+    fn = ini_f.node
+    local = {a.targets[0].id: a.value for a in ast.walk(fn) if isinstance(a, ast.Assign) and len(a.targets) == 1 and isinstance(a.targets[0], ast.Name)}
+
+    def table_of(it):
+        it = local.get(it.id, it) if isinstance(it, ast.Name) else it
+        return it.attr if isinstance(it, ast.Attribute) and isinstance(it.value, ast.Name) and it.value.id in ("self", "cls") and it.attr in tables else None
+
+    dict_loops, pair_loops = [], []
+    for n_ in c.nodes:
+        a_ = n_.ast
+        if not isinstance(a_, ast.For) or any(isinstance(x, (ast.Break, ast.Return, ast.Continue)) for x in ast.walk(a_)):
+            continue
+        t_ = table_of(a_.iter)
+        if t_ is not None and isinstance(a_.target, ast.Name) and any(isinstance(x, ast.Call) and isinstance(x.func, ast.Name) and x.func.id == a_.target.id and len(x.args) == 1 for x in ast.walk(a_)):
+            dict_loops.append((n_, t_))
+        if "items" in norm_text(a_.iter):
+            for inner in [x for x in ast.walk(a_) if isinstance(x, ast.For) and x is not a_]:
+                t2 = table_of(inner.iter)
+                if t2 is not None and isinstance(inner.target, ast.Name) and any(isinstance(x, ast.Call) and isinstance(x.func, ast.Name) and x.func.id == inner.target.id and len(x.args) == 2 for x in ast.walk(inner)):
+                    pair_loops.append((n_, t2))
+    if not dict_loops or not pair_loops:
+        return False
+    DT, PT = dict_loops[0][1], pair_loops[0][1]
+    ok = bool(sup) and all(any(c.dominates(n_, s_) for n_, _ in dict_loops) and any(c.dominates(n_, s_) for n_, _ in pair_loops) for s_ in sup)
+    ctx.require(ok, "R6", "TensorDict.__init__: checks dominate the store", f"the tables self.{DT} (on the mapping) and self.{PT} (on every item) are walked on every path before super().__init__",
+                "a path reaches super().__init__(...) without walking the tables of checks: a dictionary can exist with values whose shapes contradict its type", ini_f.loc())
+    typed = {"Gradients": [PT], "Jacobians": [DT, PT], "GradientVectors": [PT], "JacobianMatrices": [DT, PT]}
+    for cname, need in typed.items():
+        cls = index.find_class(f"{T}.tensor_dict.{cname}")
+        if cls is None:
+            raise AnalysisError(f"anchor vanished: {cname}")
+        for tname in need:
+            e_ = cls.class_attrs.get(tname)
+            entries = list(e_.elts) if isinstance(e_, (ast.Tuple, ast.List)) else []
+            okh = bool(entries) and all(_shape_check_ok(cls, x) for x in entries)
+            ctx.require(okh, "R6", f"{cname}.{tname}", f"{len(entries)} shape check(s), each raising ValueError under a comparison",
+                        f"{cname} does not declare `{tname}` as a non-empty table of shape checks raising ValueError", cls.loc())
+        if "__init__" in cls.methods:
+            ctx.violated("R6", f"{cname}.__init__", f"{cname} overrides __init__ (the checks of TensorDict.__init__ may be skipped)", cls.loc())
+    for hf in [f for f in td.module.functions.values() if any(isinstance(x, ast.Raise) and "ValueError" in norm_text(x) for x in ast.walk(f.node))]:
+        for comp in [n for n in ast.walk(hf.node) if isinstance(n, (ast.ListComp, ast.SetComp, ast.GeneratorExp, ast.DictComp))]:
+            filt = [g for g in comp.generators if g.ifs]
+            ctx.require(not filt, "R6", f"{hf.short}: `{norm_text(comp)[:70]}` considers every value", "no filter in the comprehension",
+                        f"the check skips some values (`if {norm_text(filt[0].ifs[0]) if filt else ''}`): a dictionary with such values escapes the shape rule of its type", hf.loc(comp))
+    return True
+
+
 def shape_guards_rule(index, ctx):
     """R8: the shape validators of the typed dictionaries compare shapes; they do not quantify over the rows of the value (a test
     `any(row.shape != key.shape for row in value)` is vacuously false for a value with zero rows, whatever its other dimensions)."""
@@ -509,63 +632,14 @@ def check(index, ctx):
     overridden = {n for sub in index.subclasses(td) for n in list(sub.methods) + list(sub.class_attrs) if n in td.methods and not n.startswith("__")}
     PAIR = sorted(n for n in overridden if n_params(td.methods[n]) == 2)
     DICT = sorted(n for n in overridden if n_params(td.methods[n]) == 1)
-    if len(PAIR) != 1 or len(DICT) != 1:
+    if not PAIR and not DICT and _table_driven_checks(index, ctx, td, ini[1], c, sup, T):
+        PAIR = DICT = None
+    elif len(PAIR) != 1 or len(DICT) != 1:
         raise AnalysisError(f"anchor vanished: TensorDict hooks (per-pair candidates {PAIR}, dictionary-level candidates {DICT})")
-    PAIR, DICT = PAIR[0], DICT[0]
-    ALLPAIRS = next((n for n, f in td.methods.items() if n not in overridden and n != "__init__" and any(
-        isinstance(l, ast.For) and any(isinstance(x, ast.Call) and isinstance(x.func, ast.Attribute) and x.func.attr == PAIR for x in ast.walk(l)) for l in ast.walk(f.node))), None)
-    cd = covering(DICT)
-    cp = covering(ALLPAIRS) if ALLPAIRS is not None else []
-    # the per-pair loop may be written in __init__ itself: `for key, value in <mapping>.items(): self._check_key_value_pair(key, value)` without early exit
-    for n_ in c.nodes:
-        a_ = n_.ast
-        if isinstance(a_, ast.For) and "items" in norm_text(a_.iter) and not any(isinstance(x, (ast.Break, ast.Return, ast.Continue)) for x in ast.walk(a_)) \
-                and any(isinstance(x, ast.Call) and isinstance(x.func, ast.Attribute) and x.func.attr == PAIR for x in ast.walk(a_)):
-            cp = list(cp) + [n_]
-    ok = bool(sup) and all(any(c.dominates(x, s) for x in cd) and any(c.dominates(x, s) for x in cp) for s in sup)
-    ctx.require(ok, "R6", "TensorDict.__init__: checks dominate the store", f"{DICT} and the per-pair check ({ALLPAIRS or PAIR}) run on every path before super().__init__",
-                f"a path reaches super().__init__(...) without running {DICT} / the check of every pair: a dictionary can exist with values whose shapes contradict its type", ini[1].loc())
-    ap = td.lookup(ALLPAIRS) if ALLPAIRS is not None else None
-    if ap is not None:
-        loops = [n for n in ast.walk(ap[1].node) if isinstance(n, ast.For)]
-        good = len(loops) == 1 and "items" in norm_text(loops[0].iter) and not any(isinstance(x, (ast.Break, ast.Return, ast.Continue)) for x in ast.walk(loops[0])) and \
-            any(isinstance(x, ast.Call) and isinstance(x.func, ast.Attribute) and x.func.attr == PAIR for x in ast.walk(loops[0]))
-        ctx.require(good, "R6", "TensorDict: the all-pairs driver visits every item", "loop over items() without early exit", "the per-pair check does not visit every (key, value) pair", ap[1].loc())
-    for hf in [f for f in td.module.functions.values() if any(isinstance(x, ast.Raise) and "ValueError" in norm_text(x) for x in ast.walk(f.node))]:
-        for comp in [n for n in ast.walk(hf.node) if isinstance(n, (ast.ListComp, ast.SetComp, ast.GeneratorExp, ast.DictComp))]:
-            filt = [g for g in comp.generators if g.ifs]
-            ctx.require(not filt, "R6", f"{hf.short}: `{norm_text(comp)[:70]}` considers every value", "no filter in the comprehension",
-                        f"the check skips some values (`if {norm_text(filt[0].ifs[0]) if filt else ''}`): a dictionary with such values escapes the shape rule of its type", hf.loc(comp))
-        for loop in [n for n in ast.walk(hf.node) if isinstance(n, ast.For)]:
-            if any(isinstance(x, ast.Continue) for x in ast.walk(loop)):
-                ctx.violated("R6", f"{hf.short}: loop skips some values", "`continue` inside a shape check", hf.loc(loop))
-    typed = {"Gradients": [PAIR], "Jacobians": [DICT, PAIR], "GradientVectors": [PAIR], "JacobianMatrices": [DICT, PAIR]}
-    for cname, hooks in typed.items():
-        cls = index.find_class(f"{T}.tensor_dict.{cname}")
-        if cls is None:
-            raise AnalysisError(f"anchor vanished: {cname}")
-        for h in hooks:
-            f = cls.methods.get(h)
-            if f is None and h in cls.class_attrs:
-                # `_check_dict = staticmethod(_some_module_function)` / `_check_dict = _some_module_function`
-                e_ = cls.class_attrs[h]
-                if isinstance(e_, ast.Call) and norm_text(e_.func) in ("staticmethod", "classmethod") and e_.args:
-                    e_ = e_.args[0]
-                if isinstance(e_, ast.Name) and e_.id in cls.module.functions:
-                    f = cls.module.functions[e_.id]
-            okh = False
-            if f is not None:
-                # the hook (or the helpers it calls in the same module) raises ValueError under a comparison
-                helpers = [f] + [cls.module.functions[n.func.id] for n in ast.walk(f.node) if isinstance(n, ast.Call) and isinstance(n.func, ast.Name) and n.func.id in cls.module.functions]
-                okh = len(helpers) > 1 or any(isinstance(x, ast.Raise) for x in ast.walk(f.node))
-                for hf in helpers[1:] or helpers:
-                    hc = cfg_of(hf.node)
-                    raises = [n for n in hc.stmt_nodes() if isinstance(n.ast, ast.Raise) and "ValueError" in norm_text(n.ast)]
-                    guarded = all(any(t.kind == "test" and any(isinstance(y, ast.Compare) for y in ast.walk(t.ast.test)) for t, _ in hc.guards_of(n)) for n in raises)
-                    okh = okh and bool(raises) and guarded
-            ctx.require(okh, "R6", f"{cname}.{h}", "overrides the hook with ValueError guards", f"{cname} does not override `{h}` with a shape guard raising ValueError", cls.loc())
-        if "__init__" in cls.methods:
-            ctx.violated("R6", f"{cname}.__init__", f"{cname} overrides __init__ (the checks of TensorDict.__init__ may be skipped)", cls.loc())
+    else:
+        PAIR, DICT = PAIR[0], DICT[0]
+    if PAIR is not None:
+        _hook_driven_checks(index, ctx, td, ini, c, sup, T, PAIR, DICT, overridden, covering)
     emp = index.find_class(f"{T}.tensor_dict.EmptyTensorDict")
     if emp is not None and "__init__" in emp.methods:
         f = emp.methods["__init__"]
